@@ -1,7 +1,8 @@
 //! Stream `pollat` and oracle `probe` for property C13 (interface-level wake-up schedule).
 //!
 //! Case ops:
-//!   sock <kind>                       add a socket (0 tcp-connect, 1 udp-to-unresolved, 2 dns, 3 dhcp)
+//!   sock <kind>                       add a socket (0 tcp-connect, 1 udp-to-unresolved, 2 dns, 3 dhcp,
+//!                                     4 tcp established by a scripted peer, keep-alive switched on then off)
 //!   poll <ms> pa=<v;v;..> [ra <router> <life_s> <pfx|-> <valid_s>]*
 //!        `pa` = the deadline each socket reports on its own (recorded by `gen` from
 //!        single-socket interfaces without SLAAC; µs or `n` for none)
@@ -58,7 +59,7 @@ fn mk_node(slaac: bool, seed: u64) -> Node {
 
 fn add_sock(n: &mut Node, kind: u32, idx: usize) {
     let h = match kind {
-        0 => {
+        0 | 4 => {
             let rx = tcp::SocketBuffer::new(vec![0; 1024]);
             let tx = tcp::SocketBuffer::new(vec![0; 1024]);
             n.sockets.add(tcp::Socket::new(rx, tx))
@@ -97,8 +98,18 @@ fn start_sock(n: &mut Node, i: usize) {
                     let s = n.sockets.get_mut::<dns::Socket>(h);
                     let _ = s.start_query(n.iface.context(), "example.org", DnsQueryType::A);
                 }
+                4 => {
+                    // established by now: switch keep-alive on ...
+                    let s = n.sockets.get_mut::<tcp::Socket>(h);
+                    s.set_keep_alive(Some(Duration::from_millis(7000)));
+                }
                 _ => {}
             }
+        }
+        if n.npolls[i] == 6 && n.kinds[i] == 4 {
+            // ... and off again while the connection is idle
+            let s = n.sockets.get_mut::<tcp::Socket>(n.handles[i]);
+            s.set_keep_alive(None);
         }
         return;
     }
@@ -118,7 +129,60 @@ fn start_sock(n: &mut Node, i: usize) {
             let s = n.sockets.get_mut::<dns::Socket>(h);
             let _ = s.start_query(n.iface.context(), "example.com", DnsQueryType::A);
         }
+        4 => {
+            let s = n.sockets.get_mut::<tcp::Socket>(h);
+            let _ = s.listen(8000 + i as u16);
+            n.dev.rx.push_back(tcp_frame(6000 + i as u16, 8000 + i as u16, 1000, None, true));
+        }
         _ => {}
+    }
+}
+
+/// segment from the scripted peer 10.0.0.2 (SYN, or the handshake-completing ACK)
+fn tcp_frame(sport: u16, dport: u16, seq: u32, ack: Option<u32>, syn: bool) -> Vec<u8> {
+    let src = Ipv4Address::new(10, 0, 0, 2);
+    let dst = Ipv4Address::new(10, 0, 0, 1);
+    let t = TcpRepr {
+        src_port: sport,
+        dst_port: dport,
+        control: if syn { TcpControl::Syn } else { TcpControl::None },
+        seq_number: TcpSeqNumber(seq as i32),
+        ack_number: ack.map(|a| TcpSeqNumber(a as i32)),
+        window_len: 4096,
+        window_scale: None,
+        max_seg_size: if syn { Some(1460) } else { None },
+        sack_permitted: false,
+        sack_ranges: [None, None, None],
+        timestamp: None,
+        payload: &[],
+    };
+    let ip = Ipv4Repr { src_addr: src, dst_addr: dst, next_header: IpProtocol::Tcp, payload_len: t.buffer_len(), hop_limit: 64 };
+    let eth = EthernetRepr { src_addr: EthernetAddress(PEER_MAC), dst_addr: EthernetAddress(OWN_MAC), ethertype: EthernetProtocol::Ipv4 };
+    let mut buf = vec![0u8; 14 + 20 + t.buffer_len()];
+    let mut f = EthernetFrame::new_unchecked(&mut buf[..]);
+    eth.emit(&mut f);
+    let mut p = Ipv4Packet::new_unchecked(f.payload_mut());
+    ip.emit(&mut p, &Default::default());
+    t.emit(&mut TcpPacket::new_unchecked(p.payload_mut()), &IpAddress::Ipv4(src), &IpAddress::Ipv4(dst), &Default::default());
+    buf
+}
+
+/// the scripted peer completes handshakes: a SYN-ACK from port 8000+i gets its ACK (delivered at the next poll)
+fn peer_react(n: &mut Node, frames: &[Vec<u8>]) {
+    for f in frames {
+        let Ok(e) = EthernetFrame::new_checked(&f[..]) else { continue };
+        if e.ethertype() != EthernetProtocol::Ipv4 {
+            continue;
+        }
+        let Ok(p) = Ipv4Packet::new_checked(e.payload()) else { continue };
+        if p.next_header() != IpProtocol::Tcp {
+            continue;
+        }
+        let Ok(t) = TcpPacket::new_checked(p.payload()) else { continue };
+        if t.syn() && t.ack() && (8000..8010).contains(&t.src_port()) {
+            let seq = t.seq_number().0 as u32;
+            n.dev.rx.push_back(tcp_frame(t.dst_port(), t.src_port(), 1001, Some(seq.wrapping_add(1)), false));
+        }
     }
 }
 
@@ -274,6 +338,7 @@ fn do_poll(n: &mut Node, p: &PollOp) -> (usize, usize, usize) {
         }
     }
     let frames = n.dev.drain_tx();
+    peer_react(n, &frames);
     let rs = frames.iter().filter(|f| classify(f) == FrameKind::Rs).count();
     let other = frames.iter().filter(|f| classify(f) == FrameKind::Other).count();
     (rs, other, nrx)
@@ -327,7 +392,8 @@ fn run_case(c: &Case, out: &mut dyn Write, record: bool) -> Vec<String> {
                         if s.kinds[k] == 3 {
                             let _ = s.sockets.get_mut::<dhcpv4::Socket>(s.handles[k]).poll();
                         }
-                        s.dev.drain_tx();
+                        let fr = s.dev.drain_tx();
+                        peer_react(s, &fr);
                         pas.push(fmt_opt(s.iface.poll_at(now, &s.sockets)));
                     }
                     let mut o = format!("poll {} pa={}", p.ms, if pas.is_empty() { "-".to_string() } else { pas.join(";") });
@@ -370,7 +436,7 @@ fn gen_case(rng: &mut Rng, id: String) -> Case {
     };
     let mut ops = vec![];
     for _ in 0..nsock {
-        ops.push(format!("sock {}", rng.below(4)));
+        ops.push(format!("sock {}", rng.below(5)));
     }
     let mut t: i64 = rng.range(0, 50);
     let n = rng.range(4, 22);
@@ -440,6 +506,7 @@ fn probe_case(c: &Case, fails: &mut Vec<String>, stats: &mut std::collections::B
             }
         }
         let frames = n.dev.drain_tx();
+        peer_react(&mut n, &frames);
         let ntx = frames.len();
         *stats.entry("polls".into()).or_default() += 1;
         *stats.entry("frames".into()).or_default() += ntx as u64;
